@@ -563,6 +563,71 @@ theorem zone_failure_only_if_all_failed (ctx : Ctx) (zoneEmpty nsl lowLevel : Bo
    (local_causes_never_recorded_as_zone_failure ctx zoneEmpty nsl _ hrec).2.1,
    (local_causes_never_recorded_as_zone_failure ctx zoneEmpty nsl _ hrec).2.2.1⟩
 
+/-- the host's address lookup failed, and not for a reason `lookupV4Nss` treats as request-local. -/
+def GenuineNSFailure (o : NSAddr) : Prop :=
+  ∃ c, o = .failed c ∧ (c.isRequestLocal = false ∨ c = .probeLimit)
+
+theorem nss_noServers (outs : List NSAddr) : ∀ (have_ : Bool) (soft : Option Cause),
+    lookupV4Nss outs have_ soft = .noServers →
+    have_ = false ∧ soft = none ∧ ∀ o ∈ outs, GenuineNSFailure o := by
+  induction outs with
+  | nil =>
+    intro have_ soft h
+    unfold lookupV4Nss at h
+    cases have_ <;> cases soft <;> simp at h
+    exact ⟨rfl, rfl, fun o ho => by simp at ho⟩
+  | cons o rest ih =>
+    intro have_ soft h
+    cases o with
+    | found =>
+      unfold lookupV4Nss at h
+      have := (ih true soft h).1
+      cases this
+    | failed c =>
+      unfold lookupV4Nss at h
+      split at h
+      · cases h
+      · split at h
+        · have := (ih have_ (some c) h).2.1
+          cases this
+        · rename_i h1 h2
+          obtain ⟨ha, hs, hall⟩ := ih have_ soft h
+          refine ⟨ha, hs, ?_⟩
+          intro o' ho'
+          rcases List.mem_cons.mp ho' with rfl | hr
+          · refine ⟨c, rfl, ?_⟩
+            cases c <;> simp_all [Cause.isRequestLocal]
+          · exact hall o' hr
+
+/-- **A shed or request-local sub-lookup is not an unreachable zone.** A
+glueless delegation is published as an unreachable zone only if no server
+address was known or found and EVERY name-server host's address lookup failed
+genuinely — none of them was refused for a reason local to this request tree
+(work budget, recursion depth, cancellation, deadline, attempt limit, load
+shed by the resolver's own in-flight ceilings); and the request tree itself
+is neither ended nor best-effort. (A shed probe follower — `probeLimit` — is
+the one request-local cause `lookupV4Nss` does not single out; the internal
+sub-pipeline never elects probe followers.) -/
+theorem shed_sub_lookup_is_not_an_unreachable_zone (ctx : Ctx) (zoneEmpty glue : Bool) (outs : List NSAddr)
+    (h : delegationRecordsZone ctx zoneEmpty (lookupV4Nss outs glue none) = true) :
+    glue = false ∧ ctx.ended = false ∧ ctx.bestEffort = false ∧ zoneEmpty = false ∧
+    ∀ o ∈ outs, GenuineNSFailure o := by
+  cases hr : lookupV4Nss outs glue none with
+  | servers => rw [hr] at h; simp [delegationRecordsZone] at h
+  | error c => rw [hr] at h; simp [delegationRecordsZone] at h
+  | noServers =>
+    rw [hr] at h
+    obtain ⟨hg, _, hall⟩ := nss_noServers outs glue none hr
+    simp only [delegationRecordsZone, zoneFailureAdmitted, Bool.and_eq_true, Bool.not_eq_true'] at h
+    exact ⟨hg, h.1.2, h.1.1.2, h.1.1.1, hall⟩
+
+-- non-vacuity: two hosts that genuinely fail do publish the zone; one shed host does not
+example : delegationRecordsZone ⟨false, false, false, .none⟩ false
+    (lookupV4Nss [.failed .other, .failed .none] false none) = true := by decide
+example : delegationRecordsZone ⟨false, false, false, .none⟩ false
+    (lookupV4Nss [.failed .other, .failed .loadShed] false none) = false := by decide
+example : lookupV4Nss [.failed .loadShed, .found] false none = .servers := by decide
+
 /-! ## the kill switch -/
 
 /-- **rfc9520 off is inert.** With the switch off no Store entry point reads
